@@ -1921,17 +1921,20 @@ namespace adept {
       ADEPT_STATIC_ASSERT(!(std::numeric_limits<Type>::is_integer
 	    && IsActive), CANNOT_CREATE_ACTIVE_ARRAY_OF_INTEGERS);
 
-      if (storage_) {
-	storage_->remove_link();
-	storage_ = 0;
-      }
-      // Check requested dimensions
+      // Check requested dimensions before releasing the existing
+      // data, so that a failed resize leaves the array intact
       for (int i = 0; i < Rank; ++i) {
 	if (dim[i] < 0) {
 	  throw invalid_dimension("Negative array dimension requested"
 				  ADEPT_EXCEPTION_LOCATION);
 	}
-	else if (dim[i] == 0) {
+      }
+      if (storage_) {
+	storage_->remove_link();
+	storage_ = 0;
+      }
+      for (int i = 0; i < Rank; ++i) {
+	if (dim[i] == 0) {
 	  // If any of the dimensions is zero, we clear the array
 	  // completely and all dimensions will be zero
 	  clear();
